@@ -304,13 +304,11 @@ def _differs(outs_a, grads_a, outs_b, grads_b, tol):
         err = float((a - b).abs().max()) / sc
         if not err <= tol:
             return f"output {i}: rel err {err:.3e}"
-    for i, (a, b) in enumerate(zip(grads_a, grads_b)):
-        if a is None and b is None:
-            continue
-        a = torch.zeros_like(b) if a is None else a
-        b = torch.zeros_like(a) if b is None else b
-        sc = max(float(b.abs().max()), float(a.abs().max()), 1e-30)
-        err = float((a - b).abs().max()) / sc
-        if not err <= tol:
-            return f"gradient {i}: rel err {err:.3e}"
-    return None
+    from ..instruments import grads_differ
+
+    bad = grads_differ(grads_a, grads_b, tol) if tol > 0 else None
+    if tol == 0:
+        for i, (a, b) in enumerate(zip(grads_a, grads_b)):
+            if (a is None) != (b is None) or (a is not None and not torch.equal(a, b)):
+                return f"gradient {i}: not bit-identical"
+    return ("gradient " + bad) if bad else None
